@@ -2023,6 +2023,20 @@ func (interp *Interpreter) cfg(root *node, sc *scope, importPath, pkgName string
 			wireChild(n)
 			n.tnext = nil
 			n.val = sc.def
+			if len(n.child) == 1 && isCall(n.child[0]) && nret > 1 {
+				// The values of a call returning several results are checked one by one.
+				ft := n.child[0].child[0].typ
+				for i := 1; i < nret; i++ {
+					var typ *itype
+					if typ, err = nodeType(interp, sc.upperLevel(), returnSig.child[2].fieldType(i)); err != nil {
+						return
+					}
+					if rt := ft.out(i); rt != nil && !rt.assignableTo(typ) {
+						err = n.child[0].cfgErrorf("cannot use value %d of type %s as type %s in return argument", i+1, rt.id(), typ.id())
+						return
+					}
+				}
+			}
 			for i, c := range n.child {
 				var typ *itype
 				typ, err = nodeType(interp, sc.upperLevel(), returnSig.child[2].fieldType(i))
